@@ -555,13 +555,13 @@ impl Visitor for TargetOpVisitor<'_> {
     type Out = Result<(), SimError>;
     fn visit<C: SimColor>(&mut self, top: &mut DynTarget<'_, C>, _b: &[Rectangle]) -> Self::Out {
         match self.op {
-            TOp::DrawIter(px) => top.draw_iter(Vague { it: px.iter().map(|(x, y, c)| Pixel(Point::new(*x, *y), C::from_u32(*c))), mode: hint_mode(self.op) }),
+            TOp::DrawIter(px) => top.draw_iter(Vague::new(px.iter().map(|(x, y, c)| Pixel(Point::new(*x, *y), C::from_u32(*c))), hint_mode(self.op))),
             TOp::FillContiguous { area, colours, repeat } => {
                 let a = crate::erased::rect_of(area);
                 let it = colours.iter().map(|c| C::from_u32(*c));
                 match repeat {
-                    Some(r) => top.fill_contiguous(&a, Vague { it: it.chain(core::iter::repeat(C::from_u32(*r))), mode: hint_mode(self.op) }),
-                    None => top.fill_contiguous(&a, Vague { it, mode: hint_mode(self.op) }),
+                    Some(r) => top.fill_contiguous(&a, Vague::new(it.chain(core::iter::repeat(C::from_u32(*r))), hint_mode(self.op))),
+                    None => top.fill_contiguous(&a, Vague::new(it, hint_mode(self.op))),
                 }
             }
             TOp::FillSolid { area, colour } => top.fill_solid(&crate::erased::rect_of(area), C::from_u32(*colour)),
